@@ -303,3 +303,62 @@ ld dense_cond1(const vf_mat *F, ld *n1, ld *in1, ld *ni, ld *ini)
     else { ld b1 = dense_norm1(n, X), bi = dense_norminf(n, X); r = a1 * b1; if (n1) *n1 = a1; if (in1) *in1 = b1; if (ni) *ni = ai; if (ini) *ini = bi; }
     free(D); free(X); return r;
 }
+
+/* clause (a): checks on a return info = i in [1, n]; F is the matrix that was factored (A, or A^T for row storage) */
+void judge_singular(vf_case *c, const vf_api *P, const vf_mat *F, const int *perm_r, const int *perm_c,
+                           const SuperMatrix *L, const SuperMatrix *U, int_t info, const char *route)
+{
+    int n = F->n, jz = (int)info - 1;            /* the column reported as having no pivot */
+    const SCformat *Ls = L->Store; const NCformat *Us = U->Store;
+    if (!Ls || !Us || !Ls->sup_to_col || !Ls->col_to_sup) { vf_viol(c, "singular-factors-missing", "%s: info=%lld but L/U stores are absent", route, (long long)info); return; }
+    int s = Ls->col_to_sup[jz];
+    if (s < 0 || s > (int)Ls->nsuper) { vf_viol(c, "singular-col_to_sup", "%s: col_to_sup[%d]=%d outside [0,%lld]", route, jz, s, (long long)Ls->nsuper); return; }
+    int f = Ls->sup_to_col[s]; if (f < 0 || f > jz) { vf_viol(c, "singular-sup_to_col", "%s: supernode %d of column %d starts at %d", route, s, jz, f); return; }
+    int_t is = Ls->rowind_colptr[f]; long nsupr = (long)(Ls->rowind_colptr[f + 1] - is); int_t vs = Ls->nzval_colptr[jz];
+    if (nsupr < 0 || nsupr > n) { vf_viol(c, "singular-rowlist", "%s: supernode row list length %ld", route, nsupr); return; }
+    /* every stored candidate of column jz (diagonal position and below) must be exactly zero */
+    for (long k = jz - f; k < nsupr; k++) {
+        ldc v = P->get(Ls->nzval, (size_t)(vs + k));
+        if (v != 0) { vf_viol(c, "candidate-nonzero", "%s: info=%lld but candidate at position %ld of column %d is %.6Lg%+.6Lgi, not exactly zero", route, (long long)info, k, jz, creall(v), cimagl(v)); return; }
+    }
+    /* leading jz x jz block: nonzero pivots and factor identity (rows and columns < jz of the permuted matrix) */
+    if (jz == 0) return;
+    ldc *Ld = calloc((size_t)jz * jz, sizeof(ldc)), *Ud = calloc((size_t)jz * jz, sizeof(ldc));
+    for (int j = 0; j < jz; j++) {
+        int sj = Ls->col_to_sup[j]; if (sj < 0 || sj > (int)Ls->nsuper) goto malformed;
+        int fj = Ls->sup_to_col[sj]; if (fj < 0 || fj > j) goto malformed;
+        int_t isj = Ls->rowind_colptr[fj]; long nr = (long)(Ls->rowind_colptr[fj + 1] - isj); if (nr < j - fj + 1 || nr > n) goto malformed;
+        int_t v0 = Ls->nzval_colptr[j];
+        int nsupc_total = Ls->sup_to_col[sj + 1] - fj;
+        for (long k = 0; k < nr; k++) {
+            ldc v = P->get(Ls->nzval, (size_t)(v0 + k));
+            long row = k < nsupc_total ? fj + k : (long)Ls->rowind[isj + k];
+            if (row < 0 || row >= n) { if (v != 0) goto malformed; continue; }
+            if (row >= jz) continue;
+            if (row < j) Ud[(size_t)j * jz + row] += v; else if (row == j) { Ud[(size_t)j * jz + j] += v; Ld[(size_t)j * jz + j] = 1; } else Ld[(size_t)j * jz + row] += v;
+        }
+        for (int_t q = Us->colptr[j]; q < Us->colptr[j + 1]; q++) { long row = (long)Us->rowind[q]; if (row < 0 || row >= fj) goto malformed; Ud[(size_t)j * jz + row] += P->get(Us->nzval, (size_t)q); }
+    }
+    for (int j = 0; j < jz; j++) if (Ud[(size_t)j * jz + j] == 0) { vf_viol(c, "earlier-zero-pivot", "%s: info=%lld but U(%d,%d) is already exactly zero: an earlier column without pivot was not the one reported", route, (long long)info, j, j); goto done; }
+    {   /* leading block of Pr*A*Pc */
+        int *ipc = malloc(sizeof(int) * (size_t)n); for (int j = 0; j < n; j++) ipc[j] = -1;
+        for (int j = 0; j < n; j++) if (perm_c[j] >= 0 && perm_c[j] < n) ipc[perm_c[j]] = j;
+        ld cf = P->cplx ? 16 : 8, worst = 0;
+        ldc *col = malloc(sizeof(ldc) * (size_t)jz); ld *bnd = malloc(sizeof(ld) * (size_t)jz); ldc *pa = malloc(sizeof(ldc) * (size_t)jz);
+        for (int jp = 0; jp < jz; jp++) {
+            for (int i = 0; i < jz; i++) { col[i] = 0; bnd[i] = 0; pa[i] = 0; }
+            for (int k = 0; k <= jp; k++) { ldc u = Ud[(size_t)jp * jz + k]; if (u == 0) continue; for (int i = k; i < jz; i++) { ldc l = Ld[(size_t)k * jz + i]; if (l != 0) { col[i] += l * u; bnd[i] += cabsl(l) * cabsl(u); } } }
+            int jo = ipc[jp]; if (jo < 0) { free(ipc); free(col); free(bnd); free(pa); goto malformed; }
+            for (int_t q = F->colptr[jo]; q < F->colptr[jo + 1]; q++) { int pr_ = perm_r[F->rowind[q]]; if (pr_ >= 0 && pr_ < jz) pa[pr_] += F->v[q]; }
+            for (int i = 0; i < jz; i++) { ld e = cabsl(pa[i] - col[i]); ld b = cf * n * P->eps * bnd[i] + n * P->tiny; ld q = e / b; if (!(q <= worst)) worst = q; }
+        }
+        free(ipc); free(col); free(bnd); free(pa);
+        if (!(worst <= 1.0L)) vf_viol(c, "leading-block-identity", "%s: info=%lld but the leading %dx%d block of Pr*A*Pc differs from L*U by %.3Lg times the bound", route, (long long)info, jz, jz, worst);
+    }
+done:
+    free(Ld); free(Ud); return;
+malformed:
+    vf_viol(c, "leading-block-malformed", "%s: info=%lld: structure of the leading %d columns cannot be read consistently", route, (long long)info, jz);
+    free(Ld); free(Ud);
+}
+
